@@ -27,7 +27,8 @@ RULE = ("one unit = one configuration: data_type x num_channels {1,2,3} x "
         "encoding (raw; compressed_segmentation blocks [8,8,8],[2,2,2],"
         "[2,1,4]; jpeg xy/xz at quality 95/100) x accessor (deep/flat x "
         "gzip/no-gzip, sharded in-memory / on-disk) x info (one scale "
-        "(5,4,3)/2^3; two scales adding (3,2,2)/4^3). Histories: every "
+        "(5,4,3)/2^3; two scales adding (3,2,2)/4^3; a scale listing two chunk sizes, file accessors only). "
+        "Histories: every "
         "ordered selection of <= 3 (quick) / 4 (thorough) writes to distinct "
         "chunks out of 4 (interior, x-border, corner, coarse scale) x content "
         "{ramp, checker stored big-endian and non-contiguous}; states "
@@ -85,6 +86,9 @@ def make_info(cfg):
             :2 if cfg["two_scales"] else 1]):
         s = {"key": "s%d" % i, "size": size, "chunk_sizes": [cs],
              "resolution": [2 ** i] * 3, "voxel_offset": [0, 0, 0]}
+        if cfg.get("multi_cs") and i == 0:
+            # a scale may list several chunk sizes; chunks of each are valid
+            s["chunk_sizes"] = [cs, [4, 4, 4]]
         s.update(enc)
         if cfg["acc"]["cls"] == "sharded":
             s["sharding"] = {"@type": "neuroglancer_uint64_sharded_v1",
@@ -102,6 +106,8 @@ def chunk_menu(cfg):
          (0, (4, 5, 2, 4, 2, 3))]
     if cfg["two_scales"]:
         m.append((1, (0, 3, 0, 2, 0, 2)))
+    elif cfg.get("multi_cs"):
+        m.append((0, (4, 5, 0, 4, 0, 3)))     # a chunk of the second size
     else:
         m.append((0, (2, 4, 2, 4, 0, 2)))
     return m
@@ -184,6 +190,8 @@ def run_history(cfg, history, col, check=True):
     case = {"dtype": cfg["dtype"], "channels": cfg["channels"],
             "enc": cfg["enc"], "acc": cfg["acc"],
             "two_scales": cfg["two_scales"], "history": history}
+    if cfg.get("multi_cs"):
+        case["multi_cs"] = True
     try:
         info = make_info(cfg)
         with open(os.path.join(d, "info"), "w") as f:
@@ -227,6 +235,9 @@ def run_history(cfg, history, col, check=True):
             if cfg["two_scales"]:
                 allchunks += [(1, cc) for cc in pipeline.chunk_grid(SIZE1,
                                                                     CS1)]
+            if cfg.get("multi_cs"):
+                allchunks += [(0, cc) for cc in pipeline.chunk_grid(
+                    SIZE0, [4, 4, 4]) if (0, cc) not in allchunks]
             for hname, h in handles:
                 for si, cc in allchunks:
                     c2 = dict(case, read=[si, list(cc)], handle=hname)
@@ -408,6 +419,13 @@ def configs(tier):
                             continue
                         out.append({"dtype": dt, "channels": nch, "enc": enc,
                                     "acc": acc, "two_scales": two})
+                        if (not two and acc["cls"] == "file"
+                                and enc["encoding"] != "jpeg"
+                                and (tier == "thorough" or nch == 1)):
+                            out.append({"dtype": dt, "channels": nch,
+                                        "enc": enc, "acc": acc,
+                                        "two_scales": False,
+                                        "multi_cs": True})
     return out
 
 
@@ -465,6 +483,7 @@ def replay(case):
                 if r["case"]["coords"] == case["coords"]]
     cfg = {k: case[k] for k in ("dtype", "channels", "enc", "acc",
                                 "two_scales")}
+    cfg["multi_cs"] = case.get("multi_cs", False)
     run_history(cfg, case["history"], col)
     recs = col.records()
     if "read" in case:
